@@ -127,6 +127,10 @@ func runDecoders(c *ctx, types []string, pMut int, n int) {
 				var tbl []kv
 				for t := 0; t < g.r.intn(4); t++ {
 					tbl = append(tbl, kv{fmt.Sprintf("host%d.default.svc.cluster.local", t), []string{fmt.Sprintf("10.0.0.%d", t+1), "10.9.9.9"}[:1+g.r.intn(2)]})
+					if g.r.chance(25) {
+						// a host spelt with capitals next to its lower-case twin: two hosts, each keyed by its own name
+						tbl = append(tbl, kv{fmt.Sprintf("Host%d.Default.svc.cluster.local", t), []string{fmt.Sprintf("10.1.0.%d", t+1)}})
+					}
 				}
 				a = anyNameTable(tbl)
 			}
